@@ -71,11 +71,11 @@ CHECKS = {
     "C02": {"drivers": ["struct", "valid"], "models": ["gen_secp", "gen_ed"]},
     "C03": {"drivers": ["hist_full", "auth_light", "struct", "text", "prefix", "typed_b", "nodeid", "keys", "api", "huge"], "models": ["hist_k256", "gen_ed"]},
     "C04": {"drivers": ["valid", "struct", "hist_full", "size_full"], "models": ["gen_secp"]},
-    "C05": {"drivers": ["hist", "hist_long", "size"], "models": ["hist_k256", "hist_ed", "hist_comb_secp", "hist_comb_ed"]},
+    "C05": {"drivers": ["hist", "hist_long", "size"], "models": ["hist_k256", "hist_ed", "hist_comb_secp", "hist_comb_ed", "build_ed"], "models_thorough": ["hist_sim"]},
     "C06": {"drivers": ["hist", "size", "seq"], "models": ["hist_k256", "hist_comb_secp"]},
     "C07": {"drivers": ["seq", "hist"], "models": ["hist_k256"]},
-    "C08": {"drivers": ["hist", "hist_long", "seq", "size"], "models": ["hist_k256"]},
-    "C09": {"drivers": ["size", "hist", "struct"], "models": ["hist_k256"]},
+    "C08": {"drivers": ["hist", "hist_long", "seq", "size"], "models": ["hist_k256", "build_k256"]},
+    "C09": {"drivers": ["size", "hist", "struct"], "models": ["hist_k256", "build_k256"]},
     "C10": {"drivers": ["nid", "valid", "hist", "cross", "api"], "models": ["hist_ed"]},
     "C11": {"drivers": ["cross", "struct", "auth_light", "valid", "api"], "models": ["gen_secp", "gen_ed", "hist_comb_ed"]},
     "C12": {"drivers": ["text", "hist_full", "size_full"], "models": ["text"]},
@@ -184,7 +184,7 @@ def run_check(pid, tier, seed, keep=False):
     deep = {"hist_k256": "hist_k256_deep", "hist_ed": "hist_ed_deep", "gen_secp": "gen_secp_deep", "gen_ed": "gen_ed_deep"}
     mnames = list(spec.get("models", []))
     if tier == "thorough":
-        mnames += [deep[m] for m in spec.get("models", []) if m in deep]
+        mnames += [deep[m] for m in spec.get("models", []) if m in deep] + list(spec.get("models_thorough", []))
     for mname in mnames:
         ms = mc.MODELS[mname](tier, wd, seed)
         model_stats.append(ms["stats"])
